@@ -97,7 +97,9 @@ N1 == <<"lit", VInt(1)>>
 N2 == <<"lit", VInt(2)>>
 SA == <<"lit", VStr(<<97>>)>>
 X == <<"ref", "x">>
-Y == <<"ref", "y">>
+\* the second name has the dotted / underscored form the tokenizer allows (a name is a name: no nested lookup, no normalisation)
+YN == "cfg.y_1"
+Y == <<"ref", YN>>
 Stmts == << <<"bin", "=", X, N1>>, <<"bin", "=", X, SA>>, <<"bin", "+=", X, N2>>, <<"bin", "-=", X, SA>>, <<"bin", "*=", X, X>>, <<"bin", "<<=", X, N2>>,
             <<"bin", "=", Y, X>>, <<"bin", "=", X, <<"bin", "=", Y, N2>>>>, <<"bin", "=", N1, N2>>, <<"bin", "=", <<"list", <<X>>>>, N1>>, <<"bin", "/=", X, <<"lit", VInt(0)>>>>,
             X, Y, <<"bin", "+", X, N1>>, <<"bin", "=", <<"ref", "n12">>, N1>>, <<"ref", "n12">>, <<"bin", "%=", Y, N2>>, <<"bin", "=", Y, <<"call", "n12", <<>>>>>>,
@@ -106,8 +108,8 @@ Stmts == << <<"bin", "=", X, N1>>, <<"bin", "=", X, SA>>, <<"bin", "+=", X, N2>>
             <<"bin", "+=", X, <<"tern", <<"bin", "==", <<"bin", "=", X, <<"lit", VInt(5)>>>>, <<"none">>>>, <<"lit", VInt(10)>>, <<"lit", VInt(20)>>>>>>,
             <<"bin", "-=", X, <<"call", "n12", <<<<"bin", "=", X, <<"lit", VInt(100)>>>>>>>>>> >>
 NS == Len(Stmts)
-AssignCtxs == << <<>>, ("x" :> <<"var", VInt(3)>>), ("x" :> <<"var", VInt(3)>>) @@ ("y" :> <<"var", VBool(TRUE)>>), ("x" :> <<"fn", "h1">>) @@ ("n12" :> <<"fn", "h12">>),
-                ("n12" :> <<"fn", "h12">>) @@ ("y" :> <<"var", VInt(5)>>) >>
+AssignCtxs == << <<>>, ("x" :> <<"var", VInt(3)>>), ("x" :> <<"var", VInt(3)>>) @@ (YN :> <<"var", VBool(TRUE)>>), ("x" :> <<"fn", "h1">>) @@ ("n12" :> <<"fn", "h12">>),
+                ("n12" :> <<"fn", "h12">>) @@ (YN :> <<"var", VInt(5)>>) >>
 AssignEnv(fault) == [handlers |-> [h \in {HID[i] : i \in 1..18} |-> [ret |-> IF h = "h1" THEN VInt(10) ELSE VInt(7), act |-> "lockctx"]],
                      gfun |-> <<>>, gprefix |-> <<>>, gpostfix |-> <<>>, ginfix |-> <<>>, fault |-> fault]
 AssignInit == \E len \in 0..ChainLen, c \in 1..Len(AssignCtxs), fault \in {NoFault, <<1, "err">>, <<2, "panic">>} :
